@@ -8,7 +8,7 @@ Definition exact (k: kind) (p: packet) : Prop :=
   decode k p <> Panic /\ decode k p <> Hang /\
   (forall e, decode k p = Val e ->
      wf_event e = true /\ kind_of e = k /\ p_err p = false /\ code_of p = Some (code k) /\
-     length (p_data p) = layout_len e /\ decode k (encode e) = Val e) /\
+     length (p_data p) = layout_len e /\ tag_unknown k p = false /\ decode k (encode e) = Val e) /\
   (forall r, decode k p = Fail r -> reason_applies k r p = true).
 
 Lemma exact_fail k p r : decode k p = Fail r -> reason_applies k r p = true -> exact k p.
@@ -18,9 +18,10 @@ Proof.
 Qed.
 
 Lemma exact_val k p e : decode k p = Val e ->
-  wf_event e = true -> kind_of e = k -> p_err p = false -> code_of p = Some (code k) -> length (p_data p) = layout_len e -> exact k p.
+  wf_event e = true -> kind_of e = k -> p_err p = false -> code_of p = Some (code k) -> length (p_data p) = layout_len e ->
+  tag_unknown k p = false -> exact k p.
 Proof.
-  intros H Hw Hk He Hc Hl. unfold exact. rewrite H. split; [discriminate|]. split; [discriminate|]. split; [|intros; discriminate].
+  intros H Hw Hk He Hc Hl Ht. unfold exact. rewrite H. split; [discriminate|]. split; [discriminate|]. split; [|intros; discriminate].
   intros e' He'. inversion He'; subst e'. repeat split; try assumption. subst k. apply roundtrip. assumption.
 Qed.
 
@@ -48,11 +49,12 @@ Lemma tag2_eq {A} (t: N) (a b c: A) :
 Proof. split_tag t; reflexivity. Qed.
 
 (* relay value: one byte *)
-Lemma relay_de_cases x : (exists v, relay_de [x] = Val v) \/ (relay_de [x] = Fail CUnknownEnumVariant /\ 4 < x).
+Lemma relay_de_cases x : (exists v, relay_de [x] = Val v /\ x <= 4) \/ (relay_de [x] = Fail CUnknownEnumVariant /\ 4 < x).
 Proof.
   unfold relay_de, idx. cbn [length Nat.eqb negb nth_error bind]. rewrite tag5_eq.
-  destruct (x =? 0) eqn:E0; [eauto|]. destruct (x =? 1) eqn:E1; [eauto|]. destruct (x =? 2) eqn:E2; [eauto|].
-  destruct (x =? 3) eqn:E3; [eauto|]. destruct (x =? 4) eqn:E4; [eauto|]. right. split; [reflexivity|lia].
+  destruct (x =? 0) eqn:E0; [left; eexists; split; [reflexivity|lia]|]. destruct (x =? 1) eqn:E1; [left; eexists; split; [reflexivity|lia]|].
+  destruct (x =? 2) eqn:E2; [left; eexists; split; [reflexivity|lia]|]. destruct (x =? 3) eqn:E3; [left; eexists; split; [reflexivity|lia]|].
+  destruct (x =? 4) eqn:E4; [left; eexists; split; [reflexivity|lia]|]. right. split; [reflexivity|lia].
 Qed.
 
 (* brightness value *)
@@ -108,7 +110,7 @@ Proof.
              (so (length d) = false -> reason_applies k CWrongSize (mkP pe pa d) = true) ->
              (so (length d) = true -> pe = false -> forall c1 c0 t, d = c1 :: c0 :: t -> c1 * 256 + c0 = code k ->
                 (body <> Panic /\ body <> Hang /\
-                 (forall e, body = Val e -> wf_event e = true /\ kind_of e = k /\ length d = layout_len e) /\
+                 (forall e, body = Val e -> wf_event e = true /\ kind_of e = k /\ length d = layout_len e /\ tag_unknown k (mkP pe pa d) = false) /\
                  (forall r, body = Fail r -> reason_applies k r (mkP pe pa d) = true))) ->
              (so (length d) = true -> (2 <= length d)%nat) ->
              exact k (mkP pe pa d)).
@@ -123,8 +125,8 @@ Proof.
     2:{ apply (exact_fail _ _ _ Hd). unfold reason_applies, code_of. cbn [p_data]. rewrite Ec. reflexivity. }
     apply N.eqb_eq in Ec. destruct (Hbody eq_refl eq_refl c1 c0 t eq_refl Ec) as [Hp [Hh [Hv Hf]]].
     destruct body as [e|r| |] eqn:Eb; try contradiction.
-    - destruct (Hv e eq_refl) as [Hw [Hk Hl]].
-      apply (exact_val _ _ e Hd Hw Hk eq_refl); [|exact Hl]. unfold code_of. cbn [p_data]. f_equal. exact Ec.
+    - destruct (Hv e eq_refl) as [Hw [Hk [Hl Ht]]].
+      apply (exact_val _ _ e Hd Hw Hk eq_refl); [|exact Hl|exact Ht]. unfold code_of. cbn [p_data]. f_equal. exact Ec.
     - apply (exact_fail _ _ _ Hd). apply Hf. reflexivity. }
   bh. cbn [p_data p_addr].
   destruct k.
@@ -135,7 +137,7 @@ Proof.
       do 2 (destruct t as [|? t]; [cbn [length] in Es; lia|]). destruct t; [|cbn [length] in Es; lia]. bh. cbn [p_data p_addr].
       unfold u16_at, u32_at, u8_at, slice, idx. cbn [length Nat.add Nat.leb skipn firstn bind nth_error].
       split; [discriminate|]. split; [discriminate|]. split; [|intros; discriminate].
-      intros e He; inversion He; subst. split; [cbn [wf_event]; unfold u16, u8, u32; lia|]. split; reflexivity.
+      intros e He; inversion He; subst. split; [cbn [wf_event]; unfold u16, u8, u32; lia|]. split; [reflexivity|]. split; reflexivity.
     + unfold eqn. intros Es. apply Nat.eqb_eq in Es. lia.
   - (* ProgrammerHello *)
     eapply G; [reflexivity| | |].
@@ -144,7 +146,7 @@ Proof.
       do 2 (destruct t as [|? t]; [cbn [length] in Es; lia|]). destruct t; [|cbn [length] in Es; lia]. bh. cbn [p_data p_addr].
       unfold u16_at, u32_at, u8_at, slice, idx. cbn [length Nat.add Nat.leb skipn firstn bind nth_error].
       split; [discriminate|]. split; [discriminate|]. split; [|intros; discriminate].
-      intros e He; inversion He; subst. split; [cbn [wf_event]; unfold u16, u8, u32; lia|]. split; reflexivity.
+      intros e He; inversion He; subst. split; [cbn [wf_event]; unfold u16, u8, u32; lia|]. split; [reflexivity|]. split; reflexivity.
     + unfold eqn. intros Es. apply Nat.eqb_eq in Es. lia.
   - (* StartFirmware *)
     eapply G; [reflexivity| | |].
@@ -153,7 +155,7 @@ Proof.
       do 6 (destruct t as [|? t]; [cbn [length] in Es; lia|]). destruct t; [|cbn [length] in Es; lia]. bh. cbn [p_data p_addr].
       unfold u16_at, u32_at, u8_at, slice, idx. cbn [length Nat.add Nat.leb skipn firstn bind nth_error].
       split; [discriminate|]. split; [discriminate|]. split; [|intros; discriminate].
-      intros e He; inversion He; subst. split; [cbn [wf_event]; unfold u16, u8, u32; lia|]. split; reflexivity.
+      intros e He; inversion He; subst. split; [cbn [wf_event]; unfold u16, u8, u32; lia|]. split; [reflexivity|]. split; reflexivity.
     + unfold eqn. intros Es. apply Nat.eqb_eq in Es. lia.
   - (* Ack *)
     eapply G; [reflexivity| | |].
@@ -162,7 +164,7 @@ Proof.
       do 2 (destruct t as [|? t]; [cbn [length] in Es; lia|]). destruct t; [|cbn [length] in Es; lia]. bh. cbn [p_data p_addr].
       unfold u16_at, u32_at, u8_at, slice, idx. cbn [length Nat.add Nat.leb skipn firstn bind nth_error].
       split; [discriminate|]. split; [discriminate|]. split; [|intros; discriminate].
-      intros e He; inversion He; subst. split; [cbn [wf_event]; unfold u16, u8, u32; lia|]. split; reflexivity.
+      intros e He; inversion He; subst. split; [cbn [wf_event]; unfold u16, u8, u32; lia|]. split; [reflexivity|]. split; reflexivity.
     + unfold eqn. intros Es. apply Nat.eqb_eq in Es. lia.
   - (* Data *)
     eapply G; [reflexivity| | |].
@@ -177,7 +179,7 @@ Proof.
         split; [discriminate|]. split; [discriminate|]. split; [|intros; discriminate].
         intros e He; inversion He; subst. split.
         { cbn [wf_event]. unfold u16, bytes, byte. rewrite Hb. lia. }
-        split; [reflexivity|]. unfold layout_len, layout_encode, layout_of, ser. cbn [map ser_fld concat app p_data length]. rewrite app_nil_r. reflexivity.
+        split; [reflexivity|]. split; [|reflexivity]. unfold layout_len, layout_encode, layout_of, ser. cbn [map ser_fld concat app p_data length]. rewrite app_nil_r. reflexivity.
       * split; [discriminate|]. split; [discriminate|]. split; [intros; discriminate|].
         intros r Hr; inversion Hr; subst. unfold reason_applies, len_allowed, nth0, w16. cbn [p_data length nth].
         apply Nat.eqb_neq in El. lia.
@@ -189,7 +191,7 @@ Proof.
       do 0 (destruct t as [|? t]; [cbn [length] in Es; lia|]). destruct t; [|cbn [length] in Es; lia]. bh. cbn [p_data p_addr].
       unfold u16_at, u32_at, u8_at, slice, idx. cbn [length Nat.add Nat.leb skipn firstn bind nth_error].
       split; [discriminate|]. split; [discriminate|]. split; [|intros; discriminate].
-      intros e He; inversion He; subst. split; [cbn [wf_event]; unfold u16, u8, u32; lia|]. split; reflexivity.
+      intros e He; inversion He; subst. split; [cbn [wf_event]; unfold u16, u8, u32; lia|]. split; [reflexivity|]. split; reflexivity.
     + unfold eqn. intros Es. apply Nat.eqb_eq in Es. lia.
   - (* BcmChange *)
     eapply G; [reflexivity| | |].
@@ -202,7 +204,8 @@ Proof.
       destruct (bcm_de_cases v Hb) as [[bv [Hv [Hw [Hl Hs]]]]|[[Hf Hc]|[Hf [Hc1 Hc2]]]]; rewrite ?Hv, ?Hf; cbn [bind].
       * split; [discriminate|]. split; [discriminate|]. split; [|intros; discriminate].
         intros e He; inversion He; subst. split; [cbn [wf_event]; unfold u16, u8, u32; rewrite Hw; lia|]. split; [reflexivity|].
-        unfold layout_len, layout_encode, layout_of. cbn [app]. rewrite !ser_cons. cbn [ser_fld app p_data length]. rewrite Hs. reflexivity.
+        split; [unfold layout_len, layout_encode, layout_of; cbn [app]; rewrite !ser_cons; cbn [ser_fld app p_data length]; rewrite Hs; reflexivity|].
+        unfold tag_unknown. cbn [p_data]. rewrite Hn0, Hl. reflexivity.
       * split; [discriminate|]. split; [discriminate|]. split; [intros; discriminate|].
         intros r Hr; inversion Hr; subst. unfold reason_applies, len_allowed. cbn [p_data]. rewrite Hn0. cbn [length] in *.
         destruct Hc as [Hc|[l [Hc Hne]]]; [lia|]. rewrite Hc. lia.
@@ -216,7 +219,7 @@ Proof.
       do 3 (destruct t as [|? t]; [cbn [length] in Es; lia|]). destruct t; [|cbn [length] in Es; lia]. bh. cbn [p_data p_addr].
       unfold u16_at, u32_at, u8_at, slice, idx. cbn [length Nat.add Nat.leb skipn firstn bind nth_error].
       split; [discriminate|]. split; [discriminate|]. split; [|intros; discriminate].
-      intros e He; inversion He; subst. split; [cbn [wf_event]; unfold u16, u8, u32; lia|]. split; reflexivity.
+      intros e He; inversion He; subst. split; [cbn [wf_event]; unfold u16, u8, u32; lia|]. split; [reflexivity|]. split; reflexivity.
     + unfold eqn. intros Es. apply Nat.eqb_eq in Es. lia.
   - (* ButtonReleased *)
     eapply G; [reflexivity| | |].
@@ -225,7 +228,7 @@ Proof.
       do 3 (destruct t as [|? t]; [cbn [length] in Es; lia|]). destruct t; [|cbn [length] in Es; lia]. bh. cbn [p_data p_addr].
       unfold u16_at, u32_at, u8_at, slice, idx. cbn [length Nat.add Nat.leb skipn firstn bind nth_error].
       split; [discriminate|]. split; [discriminate|]. split; [|intros; discriminate].
-      intros e He; inversion He; subst. split; [cbn [wf_event]; unfold u16, u8, u32; lia|]. split; reflexivity.
+      intros e He; inversion He; subst. split; [cbn [wf_event]; unfold u16, u8, u32; lia|]. split; [reflexivity|]. split; reflexivity.
     + unfold eqn. intros Es. apply Nat.eqb_eq in Es. lia.
   - (* SystemTick *)
     eapply G; [reflexivity| | |].
@@ -234,7 +237,7 @@ Proof.
       do 0 (destruct t as [|? t]; [cbn [length] in Es; lia|]). destruct t; [|cbn [length] in Es; lia]. bh. cbn [p_data p_addr].
       unfold u16_at, u32_at, u8_at, slice, idx. cbn [length Nat.add Nat.leb skipn firstn bind nth_error].
       split; [discriminate|]. split; [discriminate|]. split; [|intros; discriminate].
-      intros e He; inversion He; subst. split; [cbn [wf_event]; unfold u16, u8, u32; lia|]. split; reflexivity.
+      intros e He; inversion He; subst. split; [cbn [wf_event]; unfold u16, u8, u32; lia|]. split; [reflexivity|]. split; reflexivity.
     + unfold eqn. intros Es. apply Nat.eqb_eq in Es. lia.
   - (* StartConfig *)
     eapply G; [reflexivity| | |].
@@ -243,7 +246,7 @@ Proof.
       do 6 (destruct t as [|? t]; [cbn [length] in Es; lia|]). destruct t; [|cbn [length] in Es; lia]. bh. cbn [p_data p_addr].
       unfold u16_at, u32_at, u8_at, slice, idx. cbn [length Nat.add Nat.leb skipn firstn bind nth_error].
       split; [discriminate|]. split; [discriminate|]. split; [|intros; discriminate].
-      intros e He; inversion He; subst. split; [cbn [wf_event]; unfold u16, u8, u32; lia|]. split; reflexivity.
+      intros e He; inversion He; subst. split; [cbn [wf_event]; unfold u16, u8, u32; lia|]. split; [reflexivity|]. split; reflexivity.
     + unfold eqn. intros Es. apply Nat.eqb_eq in Es. lia.
   - (* SetAddress *)
     eapply G; [reflexivity| | |].
@@ -252,7 +255,7 @@ Proof.
       do 4 (destruct t as [|? t]; [cbn [length] in Es; lia|]). destruct t; [|cbn [length] in Es; lia]. bh. cbn [p_data p_addr].
       unfold u16_at, u32_at, u8_at, slice, idx. cbn [length Nat.add Nat.leb skipn firstn bind nth_error].
       split; [discriminate|]. split; [discriminate|]. split; [|intros; discriminate].
-      intros e He; inversion He; subst. split; [cbn [wf_event]; unfold u16, u8, u32; lia|]. split; reflexivity.
+      intros e He; inversion He; subst. split; [cbn [wf_event]; unfold u16, u8, u32; lia|]. split; [reflexivity|]. split; reflexivity.
     + unfold eqn. intros Es. apply Nat.eqb_eq in Es. lia.
   - (* Message *)
     eapply G; [reflexivity| | |].
@@ -265,22 +268,24 @@ Proof.
       match goal with |- context [if ?tg =? 0 then _ else _] => set (tag := tg) in * end.
       assert (Htag: reason_applies KMessage CUnknownEnumVariant (mkP false pa (c1 :: c0 :: n :: n0 :: n1 :: n2 :: n3 :: n4 :: n5 :: n6 :: n7 :: n8 :: n9 :: n10 :: [])) =
                     (3 <? tag) || ((tag =? 3) && (1 <? n7))) by reflexivity.
+      assert (Htag': tag_unknown KMessage (mkP false pa (c1 :: c0 :: n :: n0 :: n1 :: n2 :: n3 :: n4 :: n5 :: n6 :: n7 :: n8 :: n9 :: n10 :: [])) =
+                    (3 <? tag) || ((tag =? 3) && (1 <? n7))) by reflexivity.
       destruct (tag =? 0) eqn:T0; cbn [bind].
       { split; [discriminate|]. split; [discriminate|]. split; [|intros; discriminate].
-        intros e He; inversion He; subst. split; [cbn [wf_event wf_msg]; unfold u16, u8; lia|]. split; reflexivity. }
+        intros e He; inversion He; subst. split; [cbn [wf_event wf_msg]; unfold u16, u8; lia|]. split; [reflexivity|]. split; [reflexivity|]. rewrite Htag'. lia. }
       destruct (tag =? 1) eqn:T1; cbn [bind].
       { split; [discriminate|]. split; [discriminate|]. split; [|intros; discriminate].
-        intros e He; inversion He; subst. split; [cbn [wf_event wf_msg]; unfold u16, u8; lia|]. split; reflexivity. }
+        intros e He; inversion He; subst. split; [cbn [wf_event wf_msg]; unfold u16, u8; lia|]. split; [reflexivity|]. split; [reflexivity|]. rewrite Htag'. lia. }
       destruct (tag =? 2) eqn:T2; cbn [bind].
       { split; [discriminate|]. split; [discriminate|]. split; [|intros; discriminate].
-        intros e He; inversion He; subst. split; [cbn [wf_event wf_msg]; unfold u16, u8, u32; lia|]. split; reflexivity. }
+        intros e He; inversion He; subst. split; [cbn [wf_event wf_msg]; unfold u16, u8, u32; lia|]. split; [reflexivity|]. split; [reflexivity|]. rewrite Htag'. lia. }
       destruct (tag =? 3) eqn:T3; cbn [bind].
       { rewrite tag2_eq. destruct (n7 =? 0) eqn:B0.
         { split; [discriminate|]. split; [discriminate|]. split; [|intros; discriminate].
-          intros e He; inversion He; subst. split; [cbn [wf_event wf_msg]; unfold u16, u8; lia|]. split; reflexivity. }
+          intros e He; inversion He; subst. split; [cbn [wf_event wf_msg]; unfold u16, u8; lia|]. split; [reflexivity|]. split; [reflexivity|]. rewrite Htag'. lia. }
         destruct (n7 =? 1) eqn:B1.
         { split; [discriminate|]. split; [discriminate|]. split; [|intros; discriminate].
-          intros e He; inversion He; subst. split; [cbn [wf_event wf_msg]; unfold u16, u8; lia|]. split; reflexivity. }
+          intros e He; inversion He; subst. split; [cbn [wf_event wf_msg]; unfold u16, u8; lia|]. split; [reflexivity|]. split; [reflexivity|]. rewrite Htag'. lia. }
         split; [discriminate|]. split; [discriminate|]. split; [intros; discriminate|].
         intros r Hr; inversion Hr; subst. rewrite Htag. lia. }
       split; [discriminate|]. split; [discriminate|]. split; [intros; discriminate|].
@@ -297,7 +302,8 @@ Proof.
       destruct (bcm_de_cases v Hb) as [[bv [Hv [Hw [Hl Hs]]]]|[[Hf Hc]|[Hf [Hc1 Hc2]]]]; rewrite ?Hv, ?Hf; cbn [bind].
       * split; [discriminate|]. split; [discriminate|]. split; [|intros; discriminate].
         intros e He; inversion He; subst. split; [cbn [wf_event]; unfold u16, u8, u32; rewrite Hw; lia|]. split; [reflexivity|].
-        unfold layout_len, layout_encode, layout_of. cbn [app]. rewrite !ser_cons. cbn [ser_fld app p_data length]. rewrite Hs. reflexivity.
+        split; [unfold layout_len, layout_encode, layout_of; cbn [app]; rewrite !ser_cons; cbn [ser_fld app p_data length]; rewrite Hs; reflexivity|].
+        unfold tag_unknown. cbn [p_data]. rewrite Hn0, Hl. reflexivity.
       * split; [discriminate|]. split; [discriminate|]. split; [intros; discriminate|].
         intros r Hr; inversion Hr; subst. unfold reason_applies, len_allowed. cbn [p_data]. rewrite Hn0. cbn [length] in *.
         destruct Hc as [Hc|[l [Hc Hne]]]; [lia|]. rewrite Hc. lia.
@@ -310,10 +316,10 @@ Proof.
     + unfold eqn. intros Es _ c1 c0 t -> Ec. apply Nat.eqb_eq in Es. cbn [length] in Es.
       destruct t as [|x1 [|x2 [|x3 [|x4 [|? ?]]]]]; cbn [length] in Es; try lia. bh. cbn [p_data p_addr].
       unfold u16_at, u8_at, slice, idx. cbn [length Nat.add Nat.leb skipn firstn bind nth_error].
-      destruct (relay_de_cases x4) as [[v Hv]|[Hf Hx]]; rewrite ?Hv, ?Hf; cbn [bind].
+      destruct (relay_de_cases x4) as [[v [Hv Hx]]|[Hf Hx]]; rewrite ?Hv, ?Hf; cbn [bind].
       * split; [discriminate|]. split; [discriminate|]. split; [|intros; discriminate].
         intros e He; inversion He; subst. split; [cbn [wf_event]; unfold u16, u8; lia|]. split; [reflexivity|].
-        destruct v as [[|]| | |]; reflexivity.
+        split; [destruct v as [[|]| | |]; reflexivity|]. unfold tag_unknown, nth0. cbn [p_data nth]. lia.
       * split; [discriminate|]. split; [discriminate|]. split; [intros; discriminate|].
         intros r Hr; inversion Hr; subst. unfold reason_applies, tag_unknown, nth0. cbn [p_data nth]. lia.
     + unfold eqn. intros Es. apply Nat.eqb_eq in Es. lia.
@@ -324,6 +330,6 @@ Proof.
       do 2 (destruct t as [|? t]; [cbn [length] in Es; lia|]). destruct t; [|cbn [length] in Es; lia]. bh. cbn [p_data p_addr].
       unfold u16_at, u32_at, u8_at, slice, idx. cbn [length Nat.add Nat.leb skipn firstn bind nth_error].
       split; [discriminate|]. split; [discriminate|]. split; [|intros; discriminate].
-      intros e He; inversion He; subst. split; [cbn [wf_event]; unfold u16, u8, u32; lia|]. split; reflexivity.
+      intros e He; inversion He; subst. split; [cbn [wf_event]; unfold u16, u8, u32; lia|]. split; [reflexivity|]. split; reflexivity.
     + unfold eqn. intros Es. apply Nat.eqb_eq in Es. lia.
 Qed.
